@@ -177,6 +177,10 @@ fn cmd_session(m: &BTreeMap<String, String>) {
             let mut s = String::new();
             for (ri, text) in std::mem::take(&mut log.texts) {
                 let r = &reqs_for_dump[ri];
+                // engine P parses source text: None-delimited groups are dissolved (for whole
+                // types, which is all the generator wraps, the flat text is valid where the
+                // grouped tokens are)
+                let r = if r.has_none_group() { r.flattened() } else { r.clone() };
                 s.push_str(&serde_json::json!({"id": r.id(), "mode": r.mode, "attr": r.attr, "item": r.item, "out": text}).to_string());
                 s.push('\n');
             }
@@ -450,6 +454,10 @@ fn cmd_emit_crate(m: &BTreeMap<String, String>) {
             continue;
         }
         if no_user_ce && r.item.contains("compile_error") {
+            continue;
+        }
+        if r.has_none_group() {
+            // source text cannot express a None-delimited group
             continue;
         }
         ordinal += 1;
